@@ -158,9 +158,11 @@ func CodecHostSpecs() []*spec.Spec {
 			spec.M("FlattenChild", spec.Msg("a", "A").FlatP("a_"), spec.F("note", "string"), spec.F("count", "int64")),
 			spec.M("DiscFlatVariant", spec.F("id", "string"), spec.Msg("a", "A").In("v"), spec.Msg("o", "Other").In("v")).WithOneof(&spec.Oneof{Name: "v", Config: true, Disc: "vtype", Flatten: true}),
 			spec.M("DiscNestedVariant", spec.F("id", "string"), spec.Msg("a", "A").In("v"), spec.Msg("o", "Other").In("v")).WithOneof(&spec.Oneof{Name: "v", Config: true, Disc: "vkind"}),
+			// the nested form again with variant fields whose JSON name differs from the proto name (several words, json_name)
+			spec.M("DiscNestedWords", spec.F("id", "string"), spec.Msg("a_payload", "A").In("v"), spec.Msg("att", "A").In("v").JN("file"), spec.Msg("other_one", "Other").In("v")).WithOneof(&spec.Oneof{Name: "v", Config: true, Disc: "vkind"}),
 			spec.M("Other", spec.F("zzz", "string")),
 		}
-		f := &spec.File{Enums: enums, Messages: append(a.Msgs(), holders...), Services: []*spec.Service{EchoService("HostService", "A", "FlattenChild", "DiscFlatVariant", "DiscNestedVariant")}}
+		f := &spec.File{Enums: enums, Messages: append(a.Msgs(), holders...), Services: []*spec.Service{EchoService("HostService", "A", "FlattenChild", "DiscFlatVariant", "DiscNestedVariant", "DiscNestedWords")}}
 		out = append(out, withCell(spec.One("host_"+a.Key, f), "host/ann="+a.Key, "extended", "valid", "codec"))
 	}
 	return out
